@@ -841,7 +841,10 @@ inline int sim_main(World& w, int argc, char** argv)
       regress = true;
     else if (a == "--regress-start")
       regress_start = strtoull(nxt().c_str(), nullptr, 10);
-    else if (a == "--shrink") {
+    else if (a == "--replay-twice") {
+      mode = "replay2";
+      replay_path = nxt();
+    } else if (a == "--shrink") {
       mode = "shrink";
       replay_path = nxt();
     } else if (a == "--det-every")
@@ -911,6 +914,25 @@ inline int sim_main(World& w, int argc, char** argv)
     }
     printf("REPLAY-CLEAN\n");
     return 0;
+  }
+
+  if (mode == "replay2") {
+    // debugging aid: execute one plan twice in this process and print the first differing event
+    Replay r;
+    std::string err;
+    if (!read_replay(replay_path, w, r, err)) {
+      fprintf(stderr, "replay: %s\n", err.c_str());
+      return 2;
+    }
+    Exec a = execute(w, r.plan, &known, true), b = execute(w, r.plan, &known, true);
+    size_t n = std::min(a.lines.size(), b.lines.size());
+    for (size_t i = 0; i < n; i++)
+      if (a.lines[i] != b.lines[i]) {
+        printf("first difference at event %zu:\n  1: %s\n  2: %s\n", i, a.lines[i].c_str(), b.lines[i].c_str());
+        return 1;
+      }
+    printf("%s (%zu vs %zu events)\n", a.lines.size() == b.lines.size() ? "identical" : "one is a prefix of the other", a.lines.size(), b.lines.size());
+    return a.hash == b.hash ? 0 : 1;
   }
 
   if (mode == "shrink") {
